@@ -7,6 +7,7 @@ import (
 	"fmt"
 	"go/token"
 	"go/types"
+	"strings"
 
 	"golang.org/x/tools/go/ssa"
 )
@@ -112,7 +113,7 @@ func (m *mlinkModel) analyseCursorFn(fn *ssa.Function, report func(in ssa.Instru
 				if cur, ok := m.cursorOfPredLoad(x.X); ok {
 					if rec && report != nil {
 						_, f := fieldVarOf(x)
-						report(x, cur, "access to ."+f.Name()+" through "+sym(x.X), s[cur])
+						report(x, cur, "access to ."+f.Name()+" through "+ksym(x.X), s[cur])
 					}
 				}
 			case *ssa.Return:
@@ -278,7 +279,7 @@ func runC10(c *Ctx) {
 				return
 			}
 			pSym := symAddrBase(Pv)
-			key := fmt.Sprintf("%s:%s.link=%s", name, pSym, sym(V))
+			key := fmt.Sprintf("%s:%s.link=%s", name, strings.TrimPrefix(ksym(Pv), "&"), ksym(V))
 			// marker
 			if V == Pv || sym(V) == pSym {
 				c.ok("R-DETACH-INVALIDATE", key, st.Pos(), "marker store (self-link)")
@@ -554,7 +555,7 @@ func runC10(c *Ctx) {
 						break
 					}
 				}
-				key := fmt.Sprintf("%s:%s.next=%s", name, sym(a.base), sym(a.val))
+				key := fmt.Sprintf("%s:%s.next=%s", name, ksym(a.base), ksym(a.val))
 				if found >= 0 {
 					used[found] = true
 					used[i] = true
@@ -565,7 +566,7 @@ func runC10(c *Ctx) {
 			}
 			for j, b := range stores {
 				if sameField(b.f, prevF) && !used[j] {
-					c.bad("R-RING-MIRROR", fmt.Sprintf("%s:%s.prev=%s", name, sym(b.base), sym(b.val)), b.st.Pos(), "prev-link write without the mirror next-link write in the same block")
+					c.bad("R-RING-MIRROR", fmt.Sprintf("%s:%s.prev=%s", name, ksym(b.base), ksym(b.val)), b.st.Pos(), "prev-link write without the mirror next-link write in the same block")
 				}
 			}
 		}
